@@ -78,6 +78,9 @@ def bipartite_vertex_cover(bigraph, algo="Hopcroft-Karp"):
     """
     if algo == "Hopcroft-Karp":
         coord = [(irow,icol) for irow,cols in enumerate(bigraph) for icol in cols]
+        if len(coord) == 0:
+            # a graph without edges is covered by the empty set
+            return [False] * len(bigraph), []
         coord = np.array(coord)
         graph = csr_matrix((np.ones(coord.shape[0]),(coord[:,0],coord[:,1])))
         matchV = maximum_bipartite_matching(graph, perm_type='row')
